@@ -180,6 +180,7 @@ class Interp:
         self.trace = []              # UC: (callee, args, result)
         self.call_hooks = []         # fn(it, callee, args)
         self.stack = []
+        self.cur_crate = None
         self.depth = 0; self.maxdepth = 0
         self.pc = []; self.decisions = []; self.dpos = 0; self.new_alternatives = []
         self.model = None
@@ -331,7 +332,7 @@ class Interp:
         return res
 
     def resolve(self, callee, nargs):
-        key = (callee, nargs)
+        key = (callee, nargs, self.cur_crate)
         if key in self._rescache:
             return self._rescache[key]
         r = self._resolve(callee, nargs)
@@ -339,10 +340,15 @@ class Interp:
         return r
 
     def _crate_of(self, path):
+        """names in a body are relative to that body's crate; `othercrate::path` names another loaded crate"""
+        cur = self.cur_crate or self.main
         seg = path.split('::')[0]
-        if seg in self.crates and seg != self.main:
-            return seg, path[len(seg) + 2:]
-        return self.main, path
+        if seg in self.crates and seg != cur:
+            rest = path[len(seg) + 2:]
+            # `ide::rename::f` inside crate ide is a module path, not a crate prefix
+            if rest in self.crates[seg] or not (path in self.crates.get(cur, {})):
+                return seg, rest
+        return cur, path
 
     def _resolve(self, callee, nargs):
         c = strip_generics(callee)
@@ -425,13 +431,15 @@ class Interp:
         if ms:
             nm = ms.group(1)
             if ('static', nm) not in self.constcache:
-                c = [n for n in self.bodies if n.split('::')[-1] == nm and self.bodies[n].header.startswith('static')]
+                sb = self.crates[self.cur_crate or self.main]
+                c = [n for n in sb if n.split('::')[-1] == nm and sb[n].header.startswith('static')]
                 if len(c) != 1:
                     raise Unsupported('static ' + t)
-                self.constcache[('static', nm)] = [self.run_const(self.bodies[c[0]])]
+                self.constcache[('static', nm)] = [self.run_const(sb[c[0]])]
             return RefV(self.constcache[('static', nm)], 0)
-        if t in self.constcache:
-            return dcopy(self.constcache[t])
+        ckey = (self.cur_crate, t)
+        if ckey in self.constcache:
+            return dcopy(self.constcache[ckey])
         bi = BUILTIN_CONSTS.get(canon_callee(t))
         if bi is not None:
             return bi()
@@ -464,7 +472,7 @@ class Interp:
                     b = bs[c[0]]
         if b is not None and not b.args:
             v = self.run_const(b)
-            self.constcache[t] = v
+            self.constcache[ckey] = v
             return dcopy(v)
         # unit enum variant / unit struct printed as a constant
         segs = name.split('::')
@@ -931,6 +939,8 @@ class Interp:
             raise Panic('stack-overflow', 'call depth > %d' % MAX_DEPTH, self.stack)
         self.stack.append(b.name)
         self.executed.add(b.name)
+        saved_crate = self.cur_crate
+        self.cur_crate = b.crate or self.main
         frame = {}
         for (l, _), v in zip(b.args, args):
             frame[l] = v
@@ -1019,11 +1029,14 @@ class Interp:
                     self.on_drop(self.place_ref(term[1], frame), frame, b, term[1])
                     bb = term[2]; continue
                 if k == 'unreachable':
+                    if self.uc:
+                        raise Pruned('unreachable in ' + b.name)
                     raise Unsupported('reached `unreachable` in ' + b.name)
                 raise Unsupported(term[1] if k == 'unsupported' else 'term ' + str(term))
         finally:
             self.depth -= 1
             self.stack.pop()
+            self.cur_crate = saved_crate
 
     def on_drop(self, ref, frame, body, place):
         pass
